@@ -39,10 +39,13 @@ func DecodeCbor(inp []byte, opts dagcbor.DecodeOptions, np datamodel.NodePrototy
 }
 
 // ReplayCborDec compares the real strict decoder with the specified verdict for one input.
-func ReplayCborDec(cs *DecCase, relaxed bool) (*run.Finding, int) {
+func ReplayCborDec(cs *DecCase, relaxed bool, maxDepth int64) (*run.Finding, int) {
 	inp := model.Bytes(cs.Inp)
 	target := "dagcbor.Decode[strict]"
-	opts := dagcbor.DecodeOptions{AllowLinks: true}
+	opts := dagcbor.DecodeOptions{AllowLinks: true, MaxDepth: maxDepth}
+	if maxDepth > 0 {
+		target = fmt.Sprintf("dagcbor.Decode[strict,MaxDepth=%d]", maxDepth)
+	}
 	if relaxed {
 		target = "dagcbor.Decode[relaxed]"
 		opts.RelaxedDecode = true
